@@ -92,6 +92,8 @@ func dispatch(kind string, args []*Sexp) (out *Sexp) {
 		return runC19(kind, args)
 	case "size19":
 		return runSize19(args)
+	case "abort09":
+		return runAbort09(args)
 	case "conc":
 		return runConc(args)
 	case "sharedump":
